@@ -30,6 +30,16 @@ package ledger
 // lands exactly at that boundary (inside the tracker transaction / after its commit and before any
 // postCommit / ...).  Nothing simulates a crash in-process.
 //
+// Faults the process SURVIVES (VERIF_C09_FAULT): at the n-th tracker commit of the incarnation the tail
+// probe's commitRound callback - inside the tracker transaction, after every real tracker has
+// written, before UpdateAccountsRound - returns an error ("err") or panics ("panic"); line FE/FP nb,
+// then X when trackerRegistry.commitRound reports the failure.  "blk": a trigger installed in the
+// block DB (plain SQL, dropped again a few ms later) makes the INSERT of the second block of a
+// two-block batch fail, i.e. the block transaction fails after one successful BlockPut; lines G
+// (trigger active, syncer retrying) and H (trigger dropped).  The child then goes on; the parent
+// kills it at the fault, some lines later, or lets it finish.  The failed transaction must leave
+// nothing behind: the disk is inspected and reopened exactly as after a plain kill.
+//
 // After every kill the parent looks at what is on disk with plain SQL (block range, tracker DB
 // round, catchpoint state rows, catchpoint files) and then reopens the files with OpenLedger,
 // compares every block with the reference history, looks every account up at every servable
@@ -54,6 +64,7 @@ import (
 	"context"
 	"database/sql"
 	"encoding/binary"
+	"errors"
 	"fmt"
 	"io"
 	"os"
@@ -425,8 +436,11 @@ func (p *vc9Progress) line(probe bool, format string, args ...interface{}) {
 }
 
 type vc9Probe struct {
-	name string
-	out  *vc9Progress
+	name    string
+	out     *vc9Progress
+	fault   string // "err" | "panic": fail the faultN-th commitRound callback
+	faultN  int
+	commits int
 }
 
 func (p *vc9Probe) loadFromDisk(ledgerForTracker, basics.Round) error         { return nil }
@@ -438,6 +452,17 @@ func (p *vc9Probe) produceCommittingTask(_ basics.Round, _ basics.Round, dcr *de
 func (p *vc9Probe) prepareCommit(*deferredCommitContext) error { return nil }
 func (p *vc9Probe) commitRound(_ context.Context, _ trackerdb.TransactionScope, dcc *deferredCommitContext) error {
 	p.out.line(true, "T%s %d", p.name, dcc.newBase())
+	p.commits++
+	if p.commits == p.faultN {
+		switch p.fault {
+		case "err":
+			p.out.line(false, "FE %d", dcc.newBase())
+			return errors.New("verif: injected commitRound error")
+		case "panic":
+			p.out.line(false, "FP %d", dcc.newBase())
+			panic("verif: injected commitRound panic")
+		}
+	}
 	return nil
 }
 func (p *vc9Probe) postCommit(_ context.Context, dcc *deferredCommitContext) {
@@ -449,11 +474,19 @@ func (p *vc9Probe) postCommitUnlocked(_ context.Context, dcc *deferredCommitCont
 		p.out.line(true, "PU%s %d", p.name, dcc.newBase())
 	}
 }
-func (p *vc9Probe) handleUnorderedCommit(*deferredCommitContext)    { p.out.line(false, "X unordered") }
-func (p *vc9Probe) handlePrepareCommitError(*deferredCommitContext) { p.out.line(false, "X prepare") }
-func (p *vc9Probe) handleCommitError(*deferredCommitContext)        { p.out.line(false, "X commit") }
+func (p *vc9Probe) handleUnorderedCommit(*deferredCommitContext)    { p.out.line(false, "U unordered") }
+func (p *vc9Probe) handlePrepareCommitError(*deferredCommitContext) { p.out.line(false, "E prepare") }
+func (p *vc9Probe) handleCommitError(*deferredCommitContext) {
+	if p.name == "1" {
+		if p.fault != "" {
+			p.out.line(false, "X commit") // the injected failure has been reported by commitRound
+		} else {
+			p.out.line(false, "E commit")
+		}
+	}
+}
 func (p *vc9Probe) clearCommitRoundRetry(context.Context, *deferredCommitContext) {
-	p.out.line(false, "X retry")
+	p.out.line(false, "U retry")
 }
 
 func TestVerifC09Child(t *testing.T) {
@@ -478,13 +511,26 @@ func TestVerifC09Child(t *testing.T) {
 	if os.Getenv("VERIF_C09_PROBE") != "0" {
 		l.trackerMu.Lock()
 		l.trackers.mu.Lock()
-		l.trackers.trackers = append(append([]ledgerTracker{&vc9Probe{"0", out}}, l.trackers.trackers...), &vc9Probe{"1", out})
+		tail := &vc9Probe{name: "1", out: out}
+		if f := os.Getenv("VERIF_C09_FAULT"); f == "err" || f == "panic" {
+			tail.fault, tail.faultN = f, vEnvInt("VERIF_C09_FAULT_N", 1)
+		}
+		l.trackers.trackers = append(append([]ledgerTracker{&vc9Probe{name: "0", out: out}}, l.trackers.trackers...), tail)
 		l.trackers.mu.Unlock()
 		l.trackerMu.Unlock()
 	}
 	rnd := vNewRand(uint64(vEnvInt("VERIF_C09_WSEED", 1)))
 	upTo := vEnvInt("VERIF_C09_UPTO", len(blocks))
+	blkFaultAt := -1
+	if os.Getenv("VERIF_C09_FAULT") == "blk" {
+		blkFaultAt = int(l.Latest()) + vEnvInt("VERIF_C09_FAULT_N", 1)
+	}
 	for r := int(l.Latest()) + 1; r <= upTo && r <= len(blocks); r++ {
+		if r == blkFaultAt && r+2 <= len(blocks) && r+2 <= upTo {
+			vc9BlockFault(t, l, dir, blocks, r, out)
+			r += 2
+			continue
+		}
 		// as if balancesFlushInterval had elapsed (the package's own tests do the same)
 		l.trackers.mu.Lock()
 		l.trackers.lastFlushTime = time.Time{}
@@ -509,6 +555,52 @@ func TestVerifC09Child(t *testing.T) {
 	out.line(false, "C")
 }
 
+// vc9BlockFault makes one block transaction of the syncer fail after a successful BlockPut: while a
+// second connection holds the block DB's write lock (the syncer's transaction gets SQLITE_BUSY and is
+// retried by db.Accessor.AtomicContext) blocks r, r+1, r+2 are added, so that the syncer - which had
+// picked up [r] - next picks up the batch [r+1, r+2]; a trigger created under that lock aborts the
+// INSERT of r+2.  The batch fails (blockQueue.syncer logs and retries) until the trigger is dropped.
+func vc9BlockFault(t *testing.T, l *Ledger, dir string, blocks []bookkeeping.Block, r int, out *vc9Progress) {
+	l.WaitForCommit(basics.Round(r - 1))
+	acc, err := db.MakeAccessor(filepath.Join(dir, "led.block.sqlite"), false, false)
+	if err != nil {
+		t.Fatal(err)
+	}
+	defer acc.Close()
+	conn, err := acc.Handle.Conn(context.Background())
+	if err != nil {
+		t.Fatal(err)
+	}
+	defer conn.Close()
+	ctx := context.Background()
+	if _, err = conn.ExecContext(ctx, "BEGIN IMMEDIATE"); err != nil {
+		t.Fatal(err)
+	}
+	_, err = conn.ExecContext(ctx, fmt.Sprintf("CREATE TRIGGER verif_c09_fail BEFORE INSERT ON blocks WHEN NEW.rnd = %d BEGIN SELECT RAISE(ABORT, 'verif: injected block insert failure'); END", r+2))
+	if err != nil {
+		t.Fatal(err)
+	}
+	for i := r; i <= r+2; i++ {
+		out.line(false, "B %d", i)
+		if err := l.AddBlock(blocks[i-1], agreement.Certificate{}); err != nil {
+			out.line(false, "E addblock %d %v", i, err)
+			t.Fatal(err)
+		}
+		out.line(false, "A %d", i)
+	}
+	if _, err = conn.ExecContext(ctx, "COMMIT"); err != nil {
+		t.Fatal(err)
+	}
+	out.line(false, "G %d", r+2)
+	time.Sleep(8 * time.Millisecond) // the syncer writes [r], then fails on [r+1, r+2] again and again
+	if _, err = conn.ExecContext(ctx, "DROP TRIGGER verif_c09_fail"); err != nil {
+		t.Fatal(err)
+	}
+	out.line(false, "H %d", r+2)
+	<-l.Wait(basics.Round(r + 2))
+	out.line(false, "W %d", r+2)
+}
+
 // ---------------------------------------------------------------------------------------------
 // parent: one incarnation
 
@@ -517,6 +609,9 @@ type vc9Kill struct {
 	line  int           // kill after this many progress lines (kline: lines of kind lk)
 	lk    string        // kline: the kind of line counted
 	delay time.Duration // extra delay after the line / absolute time after start
+	after int           // kline: kill this many lines after the awaited one
+	fault string        // "" | "err" | "panic" | "blk": fault injected in the child
+	fN    int
 }
 
 type vc9Run struct {
@@ -530,6 +625,7 @@ type vc9Run struct {
 	done      bool // "C" seen: closed cleanly
 	wall      time.Duration
 	tOpen     time.Duration // start -> "O" line
+	fault     string        // FE / FP / G: the injected fault happened
 }
 
 func vc9RunChild(t *testing.T, dir string, cfg vc9Cfg, k vc9Kill, wseed int, upTo int) vc9Run {
@@ -544,6 +640,10 @@ func vc9RunChild(t *testing.T, dir string, cfg vc9Cfg, k vc9Kill, wseed int, upT
 	if k.kind == "kline" {
 		cmd.Env = append(cmd.Env, "VERIF_C09_PAUSE_KIND="+k.lk, fmt.Sprintf("VERIF_C09_PAUSE_N=%d", k.line))
 	}
+	if k.fault != "" {
+		cmd.Env = append(cmd.Env, "VERIF_C09_FAULT="+k.fault, fmt.Sprintf("VERIF_C09_FAULT_N=%d", k.fN))
+	}
+	trigger := -1 // kline with k.after > 0: index of the awaited line
 	byKind := map[string]int{}
 	cmd.ExtraFiles = []*os.File{pw}
 	cmd.Stdout, cmd.Stderr = nil, nil
@@ -594,8 +694,18 @@ func vc9RunChild(t *testing.T, dir string, cfg vc9Cfg, k vc9Kill, wseed int, upT
 			mu.Unlock()
 		}
 		byKind[f[0]]++
-		if (k.kind == "line" && len(res.lines) == k.line) || (k.kind == "kline" && f[0] == k.lk && byKind[f[0]] == k.line) ||
-			(k.kind == "kline" && len(res.lines) == 26) { // the awaited event did not come: kill anyway
+		hit := k.kind == "kline" && f[0] == k.lk && byKind[f[0]] == k.line
+		if hit && k.after > 0 {
+			trigger, hit = len(res.lines), false
+		}
+		if trigger >= 0 && len(res.lines) == trigger+k.after {
+			hit = true
+		}
+		if f[0] == "FE" || f[0] == "FP" || f[0] == "G" {
+			res.fault = f[0]
+		}
+		if (k.kind == "line" && len(res.lines) == k.line) || hit ||
+			(k.kind == "kline" && len(res.lines) == 30) { // the awaited event did not come: kill anyway
 			res.killAfter = f[0]
 			if k.delay > 0 {
 				time.Sleep(k.delay)
@@ -685,6 +795,7 @@ func vc9Inspect(t *testing.T, dir string, h *vc9Hist) (d vc9Disk) {
 	if _, err := os.Stat(bp); err == nil {
 		acc, err := db.MakeAccessor(bp, false, false)
 		require.NoError(t, err)
+		acc.Handle.Exec("DROP TRIGGER IF EXISTS verif_c09_fail") // the harness's own fault injector, if the kill came while it was armed
 		rows, err := acc.Handle.Query("SELECT rnd, blkdata FROM blocks ORDER BY rnd")
 		if err == nil {
 			first := true
@@ -882,7 +993,14 @@ func TestVerifC09(t *testing.T) {
 			reached++
 		}
 	}
+	faultsReached := 0
+	for _, b := range []string{"fault_tracker_tx_error_rolled_back", "fault_tracker_tx_panic_rolled_back", "fault_block_tx_error_rolled_back"} {
+		if boundaries[b] > 0 {
+			faultsReached++
+		}
+	}
 	vStats(map[string]interface{}{
+		"survived_fault_kinds_reached": faultsReached, "survived_fault_kinds_total": 3,
 		"tier": tier, "counts": st, "kill_after_line_kind": killKinds, "durable_boundaries_hit": boundaries,
 		"boundary_kinds_reached": reached, "boundary_kinds_total": len(hookless),
 		"hook":   "none: /repo unmodified; crash points are reached by SIGKILL of a child process at progress lines (two in-package probe trackers widen the commit windows) and at jittered times",
@@ -927,6 +1045,20 @@ func vc9Chain(t *testing.T, outDir string, h *vc9Hist, chain int, start time.Tim
 		var k vc9Kill
 		kinds := []string{"B", "A", "W", "W", "T0", "T1", "PC0", "PC1", "PU1"}
 		switch c := rnd.Intn(20); {
+		case inc > 0 && rnd.Intn(3) == 0:
+			// a fault the process survives: the tracker transaction fails at the n-th commit (error or panic inside
+			// it, after the other trackers wrote) or a block transaction fails after one BlockPut; then the child is
+			// killed right there, a few lines later, or runs on to the end
+			k = vc9Kill{kind: "kline", lk: "X", line: 1, fault: []string{"err", "panic", "err", "panic", "blk"}[rnd.Intn(5)], fN: 1 + rnd.Intn(2)}
+			if k.fault == "blk" {
+				k.lk = []string{"G", "H"}[rnd.Intn(2)]
+			}
+			switch rnd.Intn(4) {
+			case 0:
+				k.after = 1 + rnd.Intn(8)
+			case 1:
+				k.kind = "none"
+			}
 		case c < 10:
 			// right after the n-th event of a chosen kind (probe kinds: the child pauses there)
 			k = vc9Kill{kind: "kline", lk: kinds[rnd.Intn(len(kinds))], line: 1 + rnd.Intn(3)}
@@ -951,7 +1083,10 @@ func vc9Chain(t *testing.T, outDir string, h *vc9Hist, chain int, start time.Tim
 			extra["n_child_open"] = 1
 		}
 		for _, ln := range run.lines {
-			if strings.HasPrefix(ln, "E ") || strings.HasPrefix(ln, "X ") {
+			if strings.HasPrefix(ln, "U ") {
+				extra["child_unordered_or_retry"]++
+			}
+			if strings.HasPrefix(ln, "E ") {
 				extra["child_error_lines"]++
 				os.WriteFile(filepath.Join(outDir, fmt.Sprintf("child_error_%d_%d_%d.txt", cfg.Seed%100000, chain, inc)), []byte(strings.Join(run.lines, "\n")), 0644)
 			}
@@ -977,9 +1112,21 @@ func vc9Chain(t *testing.T, outDir string, h *vc9Hist, chain int, start time.Tim
 		if !run.killed {
 			kind = "none"
 		}
+		if run.fault != "" {
+			kind = run.fault + "_" + kind // the injected fault happened in this incarnation
+			extra["fault_"+run.fault]++
+		}
 		var bs []string
 		if run.killed {
 			bs = vc9Boundaries(cfg, run, disk, added)
+		}
+		switch run.fault {
+		case "FE":
+			bs = append(bs, "fault_tracker_tx_error_rolled_back")
+		case "FP":
+			bs = append(bs, "fault_tracker_tx_panic_rolled_back")
+		case "G":
+			bs = append(bs, "fault_block_tx_error_rolled_back")
 		}
 		emit([]interface{}{vSym("c09"), cfgTerm, append([]interface{}{}, h.gen...), h.roundsTerm(),
 			vL(prevBlocks, added, confirmed, vSym("k_"+kind)), disk.terms(), obs})
